@@ -148,6 +148,9 @@ func (r *storeRun) handler(point string, args ...any) {
 	case "flush.picked":
 		who, _ := r.flushWho.Load().(string)
 		op, kv = "flush.picked", E{"n": args[0], "who": who}
+		if goid() == r.mainG {
+			kv["who"] = "fg"
+		}
 	case "flush.id":
 		op, kv = "flush.id", E{"sid": args[0], "present": r.present(r.dir)}
 	case "flush.create":
@@ -188,6 +191,13 @@ func (r *storeRun) handler(point string, args ...any) {
 		op = "compact.end"
 	default:
 		return
+	}
+	if strings.HasPrefix(op, "flush.") {
+		if goid() == r.mainG {
+			kv["w"] = "fg"
+		} else {
+			kv["w"] = "bg"
+		}
 	}
 	if r.stepping.Load() && goid() != r.mainG {
 		a := &arrival{op: op, kv: kv, resume: make(chan struct{})}
@@ -430,6 +440,13 @@ func (r *storeRun) between() {
 	case x < 9:
 		r.st.VerifEvictAll()
 		r.emit("evict", E{})
+	default:
+		// a foreground Flush() while the background job is parked at its hook: two flushers inside flushMemtables
+		r.emit("flush.call", E{})
+		wasStepping := r.stepping.Load()
+		err := r.st.Flush()
+		r.stepping.Store(wasStepping)
+		r.emit("flush.ret", E{"ok": err == nil})
 	}
 }
 
